@@ -231,6 +231,27 @@ pub fn run(ctx: &mut Ctx) {
             }
         }
     }
+    // (vi) sequences of small requests through one buffer, reads not aligned with request boundaries
+    let nseq = if ctx.thorough() { 3000 } else { 400 };
+    for _ in 0..nseq {
+        let k = rng.range(2, 14);
+        let mut s = Vec::new();
+        for j in 0..k {
+            s.extend_from_slice(format!("GET /{j} HTTP/1.1\r\n").as_bytes());
+            if rng.chance(1, 2) {
+                s.extend_from_slice(b"a: b\r\n");
+            }
+            s.extend_from_slice(b"\r\n");
+        }
+        if rng.chance(1, 4) {
+            s.extend_from_slice(b"GARBAGE");
+        }
+        let sizes: Vec<usize> = (0..rng.range(1, 4)).map(|_| rng.range(1, 50) as usize).collect();
+        idx += 1;
+        if ctx.mine(idx) {
+            super::req::case_seq(ctx, if rng.chance(1, 2) { "64" } else { "256" }, &crate::gen::enc(&s), if rng.chance(1, 2) { "eof" } else { "err" }, &crate::gen::sizes_str(&sizes), "0");
+        }
+    }
     // (v) all 2-way splits and EOF/error at every offset of short heads
     let shorts: [&[u8]; 4] = [b"GET / HTTP/1.1\r\n\r\n", b"PUT /a?b=c HTTP/1.1\r\nh: v\r\n\r\nX", b"G / HTTP/1.1\r\na:\x80\r\n\r\n", b"\r\n\r\n"];
     for s in shorts {
